@@ -948,6 +948,7 @@ class Server:
             asyncio.create_task(self.parse_command(stream)),
         }
         self.connections[key] = connection
+        handlers = set()
         try:
             while True:
                 done, pending = await asyncio.wait(
@@ -955,6 +956,7 @@ class Server:
                     return_when=asyncio.FIRST_COMPLETED,
                 )
                 connection.extra_workers -= done
+                handlers -= done
                 for task in done:
                     try:
                         result = task.result()
@@ -982,9 +984,14 @@ class Server:
                             connection.restart_offset = 0
                         f = self.commands_mapping.get(cmd)
                         if f is not None:
-                            pending.add(
-                                asyncio.create_task(f(connection, rest)),
-                            )
+                            coro = f(connection, rest)
+                            if cmd == "abor" and handlers:
+                                # abort applies to what previous commands
+                                # started, let their handlers finish first
+                                coro = self._run_after(handlers.copy(), coro)
+                            task = asyncio.create_task(coro)
+                            handlers.add(task)
+                            pending.add(task)
                         else:
                             message = f"{cmd!r} not implemented"
                             connection.response("502", message)
@@ -1017,6 +1024,15 @@ class Server:
             self.connections.pop(key)
             if tasks_to_wait:
                 await asyncio.wait(tasks_to_wait)
+
+    @staticmethod
+    async def _run_after(tasks, coro):
+        try:
+            await asyncio.wait(tasks)
+        except BaseException:
+            coro.close()
+            raise
+        return await coro
 
     @staticmethod
     def get_paths(connection, path):
